@@ -133,7 +133,8 @@ def rule_adder(rep, repo):
                 "adder-insufficient-%s-bits" % what,
                 "%s: output %s bits = %s, a sum needs %s; counterexample %s"
                 % (cfg, what, show(have), show(need), ta.show_env(wit)),
-                instance=cfg, facts={"verdict": verdict})
+                instance=cfg, observed="%s bits = %s" % (what, show(have)),
+                facts={"verdict": verdict})
     if (k2, k1) in results:
       o2 = results[(k2, k1)][3].attrs.get("output")
       b2 = ta.field(o2, "bits", fw).subst(SWAP, simplify_app)
@@ -303,7 +304,9 @@ def rule_merge(rep, repo):
                                                    else ">=")
                                          for d, st in lits) or "true", what,
                        show(have), show(need), ta.show_env(wit)),
-                      instance=cfg, facts={"verdict": verdict})
+                      instance=cfg, observed="%s bits = %s" % (what,
+                                                               show(have)),
+                      facts={"verdict": verdict})
       rep.extra.setdefault("merge_paths", {})[cfg] = npaths
 
 
